@@ -227,6 +227,41 @@ def wedge_witness(ctx):
     return case, r
 
 
+def lock_cycle():
+    """the requested-while-held relation as regenerated into Extracted.v, and a cycle in it if there is one"""
+    import re
+    try:
+        src = open(os.path.join(C.COQ, "Extracted.v")).read()
+        m = re.search(r"Definition lock_edges .*?:= \[(.*?)\]\.", src, re.S)
+        edges = re.findall(r'\("([^"]*)"%string, "([^"]*)"%string\)', m.group(1))
+    except Exception:
+        return None, None
+    succ = {}
+    for a, b in edges:
+        succ.setdefault(a, []).append(b)
+    state, stack = {}, []
+
+    def dfs(u):
+        state[u] = 1
+        stack.append(u)
+        for v in succ.get(u, []):
+            if state.get(v) == 1:
+                return stack[stack.index(v):] + [v]
+            if v not in state:
+                r = dfs(v)
+                if r:
+                    return r
+        stack.pop()
+        state[u] = 2
+        return None
+    for u in sorted(succ):
+        if u not in state:
+            r = dfs(u)
+            if r:
+                return edges, r
+    return edges, None
+
+
 def run(ctx):
     verdict = C.Verdict(ctx)
     rng = C.Rng(ctx.seed).fork(PID)
@@ -267,7 +302,8 @@ def run(ctx):
     if not proof["build_ok"] and not [f for f in fails if f[2][0] not in ("update-vs-delete-zombie", "lock-up-blocked-stage")]:
         # a proof obligation broke and the regular volume found nothing: search the racy families at 30x volume
         ctx.log("proof broken: searching the create/delete families at 30x volume")
-        extra = [dict(c, rounds=c["rounds"] * 30) for c in cases if c["family"] in ("create_same_name", "create_same_port", "delete_same", "create_delete_mixed")]
+        extra = [dict(c, rounds=c["rounds"] * 30) for c in cases if c["family"] in ("create_same_name", "create_same_port", "delete_same", "create_delete_mixed")] + \
+                [dict(c, rounds=c["rounds"] * 10) for c in cases if c["family"] in ("stop_vs_toxic_churn", "toxic_mixed")]
         for j, c in enumerate(extra):
             c["group"] = j % 6
         saved = cases
@@ -297,9 +333,10 @@ def run(ctx):
         seen.add(key)
         verdict.add(key, w, {"kind": "failing-input", "case": c, "observed": r if not isinstance(r, list) else r[:2]})
     if not [f for f in fails if f[2][0] not in ("update-vs-delete-zombie", "lock-up-blocked-stage")] and not proof["build_ok"]:
-        verdict.add("proof-broken", "proof obligation of C16 no longer checks (%s) and no failing concurrent batch was found in %d rounds"
-                    % (", ".join(proof.get("broken", [])), nrounds),
-                    {"kind": "proof-broken", "broken": proof.get("broken"), "build_tail": proof.get("build_tail"),
+        edges, cyc = lock_cycle()
+        verdict.add("proof-broken", "proof obligation of C16 no longer checks (%s%s) and no failing concurrent batch was found in %d rounds"
+                    % (", ".join(proof.get("broken", [])), ("; the locks can now be requested in a cycle: " + " -> ".join(cyc)) if cyc else "", nrounds),
+                    {"kind": "proof-broken", "broken": proof.get("broken"), "build_tail": proof.get("build_tail"), "lock_edges": edges, "lock_cycle": cyc,
                      "extracted": {k: v for k, v in getattr(ctx, "extract_meta", {}).items() if "atomic" in k or "sections" in k}}, has_input=False)
     rc, nviol = verdict.finish()
     cov = {
